@@ -168,6 +168,88 @@ func randomEntries(rng *lib.Rand, n int) []entry {
 	return es
 }
 
+// ---- exhaustive enumeration: every ordered-parent DAG on nodes 1..n (1..3 parents each) ----
+
+func orderedSubsets(m, maxLen int) [][]int {
+	var out [][]int
+	var rec func(cur []int, used int)
+	rec = func(cur []int, used int) {
+		if len(cur) > 0 {
+			out = append(out, append([]int{}, cur...))
+		}
+		if len(cur) == maxLen {
+			return
+		}
+		for x := 1; x <= m; x++ {
+			if used&(1<<uint(x)) == 0 {
+				rec(append(cur, x), used|1<<uint(x))
+			}
+		}
+	}
+	rec(nil, 0)
+	return out
+}
+
+func enumDags(n int) [][][]int {
+	dags := [][][]int{{{}}}
+	for i := 2; i <= n; i++ {
+		var next [][][]int
+		for _, d := range dags {
+			for _, ps := range orderedSubsets(i-1, 3) {
+				nd := append(append([][]int{}, d...), ps)
+				next = append(next, nd)
+			}
+		}
+		dags = next
+	}
+	return dags
+}
+
+func addEnum(run *lib.Run, parents [][]int) {
+	n := len(parents)
+	np := 1
+	for i := 0; i < n; i++ {
+		np *= 3
+	}
+	codes := make([]string, 0, np*n)
+	for p := 0; p < np; p++ {
+		var es []entry
+		q := p
+		for i := 1; i <= n; i++ {
+			switch q % 3 {
+			case 1:
+				es = append(es, entry{V: i, ID: 100 + i})
+			case 2:
+				es = append(es, entry{V: i, Tomb: true})
+			}
+			q /= 3
+		}
+		for v := 1; v <= n; v++ {
+			o := runHook(dagCase{Parents: parents, Entries: es, V: v})
+			switch {
+			case o == "ObsNone":
+				codes = append(codes, "0")
+			case o == "ObsErr":
+				codes = append(codes, "1")
+			default:
+				var id, u int
+				fmt.Sscanf(o, "(ObsVal %d (Some %d))", &id, &u)
+				if id != 100+u {
+					codes = append(codes, "999")
+				} else {
+					codes = append(codes, strconv.Itoa(2+u))
+				}
+			}
+		}
+	}
+	run.Count(fmt.Sprintf("enum-dag-n%d", n))
+	run.Count("enum-reads:" + strconv.Itoa(len(codes)))
+	term := fmt.Sprintf("CEnum %s %d [%s]", coqDag(parents), n, strings.Join(codes, ";"))
+	c := dagCase{Kind: "enum", Parents: parents}
+	b, _ := json.Marshal(parents)
+	run.Add("enum", term, c, "enum/"+string(b))
+}
+
 func min(a, b int) int {
 	if a < b {
 		return a
@@ -177,8 +259,14 @@ func min(a, b int) int {
 
 // ---- HTTP histories ----
 
-func runHistory(run *lib.Run, rng *lib.Rand, nops, nkeys int, replay []kvhist.Hop) {
-	h, err := kvhist.New(rng, "kv")
+func runHistory(run *lib.Run, rng *lib.Rand, nops, nkeys int, replay []kvhist.Hop, unversioned bool) {
+	var extra map[string]string
+	kind, ctor := "history", "CHist"
+	if unversioned {
+		extra = map[string]string{"versioned": "false"}
+		kind, ctor = "unversioned", "CUnv"
+	}
+	h, err := kvhist.NewWith(rng, "kv", extra)
 	if err != nil {
 		fmt.Fprintln(os.Stderr, err)
 		os.Exit(2)
@@ -189,7 +277,11 @@ func runHistory(run *lib.Run, rng *lib.Rand, nops, nkeys int, replay []kvhist.Ho
 		h.Random(nops, nkeys, 12)
 		h.Sweep(nkeys)
 	}
-	term := fmt.Sprintf("CHist %s [%s]", h.CoqOps(), strings.Join(h.Obs, ";"))
+	term := fmt.Sprintf("%s %s [%s]", ctor, h.CoqOps(), strings.Join(h.Obs, ";"))
+	if !unversioned {
+		// the same final state through the range endpoint at every version
+		term += " " + h.RangeSweep("kv")
+	}
 	merges := 0
 	for _, o := range h.Ops {
 		if o.Op == "child" && len(o.Parents) > 1 {
@@ -204,7 +296,7 @@ func runHistory(run *lib.Run, rng *lib.Rand, nops, nkeys int, replay []kvhist.Ho
 	}
 	run.Count(fmt.Sprintf("hist-merges:%d", min(merges, 3)))
 	b, _ := json.Marshal(h.Ops)
-	run.Add("history", term, histCase{Kind: "history", Ops: h.Ops}, "hist/"+string(b))
+	run.Add(kind, term, histCase{Kind: kind, Ops: h.Ops}, kind+"/"+string(b))
 }
 
 func main() {
@@ -224,10 +316,14 @@ func main() {
 		}
 		var kind string
 		json.Unmarshal(raw["kind"], &kind)
-		if kind == "history" {
+		if kind == "history" || kind == "unversioned" {
 			var hc histCase
 			lib.LoadReplay(o.Replay, &hc)
-			runHistory(run, rng, 0, 3, hc.Ops)
+			runHistory(run, rng, 0, 3, hc.Ops, kind == "unversioned")
+		} else if kind == "enum" {
+			var dc dagCase
+			lib.LoadReplay(o.Replay, &dc)
+			addEnum(run, dc.Parents)
 		} else {
 			var dc dagCase
 			lib.LoadReplay(o.Replay, &dc)
@@ -272,12 +368,38 @@ func main() {
 		}
 		addDag(run, c)
 	}
+	// exhaustive: every DAG with <= 3 nodes (quick) / <= 4 nodes (thorough: 60 DAGs x 81 placements
+	// x 4 versions) and, in the thorough tier, 150 random 5-node DAGs, each over all 3^n placements
+	// and all queried versions
+	maxN := 3
+	if o.Thorough() {
+		maxN = 4
+	}
+	total := 0
+	for n := 2; n <= maxN; n++ {
+		for _, d := range enumDags(n) {
+			addEnum(run, d)
+			total++
+		}
+	}
+	if o.Thorough() {
+		all5 := enumDags(5)
+		for i := 0; i < 150; i++ {
+			addEnum(run, all5[rng.Intn(len(all5))])
+		}
+	}
+	run.Extra["exhaustive_dags_up_to_nodes"] = maxN
+	run.Extra["exhaustive"] = false
 	nHist := 12
 	if o.Thorough() {
 		nHist = 120
 	}
 	for i := 0; i < nHist; i++ {
-		runHistory(run, rng, 45, 3, nil)
+		runHistory(run, rng, 45, 3, nil, false)
+	}
+	// unversioned instances: every uuid of the repo reads and writes the same datum
+	for i := 0; i < nHist/4+1; i++ {
+		runHistory(run, rng, 30, 3, nil, true)
 	}
 	run.Finish("c01case",
 		"synthetic DAGs (<=10 nodes, 1-3 ordered parents, biased to merges and deep graphs) x random value/tombstone/nothing placements x random key-list order through the real findMatch; HTTP histories (put/delete/commit/branch/newversion/merge incl. refused writes) on a keyvalue instance with a final sweep of every key at every version; distinct = distinct (DAG, placement, order, version) or op sequence",
